@@ -104,9 +104,15 @@ def xref_stream(entries: Dict[int, Tuple[int, int, int]], W: Tuple[int, int, int
             fields = ((a, W[1]), (b, W[2]))
         else:
             fields = ((t, W[0]), (a, W[1]), (b, W[2]))
+        if W[2] == 0 and (t == 0 or b != 0):
+            # an omitted third field means 0: only generation-0 objects and index-0 members; a free entry's
+            # generation (65535 for object 0, >= 1 otherwise) cannot be written
+            raise NotExpressible("W[2]=0 can only express generation 0 / index 0")
         for v, w in fields:
             v &= (1 << (8 * w)) - 1 if t == 0 else (1 << 64) - 1
-            data += v.to_bytes(w, "big")  # OverflowError = harness bug (documents are small)
+            if v >= 1 << (8 * w):
+                raise NotExpressible("value does not fit the field width")
+            data += v.to_bytes(w, "big")
     idx: List[int] = []
     for r in runs_of(list(entries)):
         idx += [r[0], len(r)]
